@@ -143,10 +143,11 @@ def merge_packs(packs):
 # ----------------------------------------------------------------------------- parallel map
 
 _WORKER_FUNC = None
+_WORKER_REPEAT = 1
 
 
 def _worker_init(modname, funcname, seed):
-    global _WORKER_FUNC
+    global _WORKER_FUNC, _WORKER_REPEAT
     setup_env()
     os.environ['VERIF_SEED'] = str(seed)
     sys.stdout = open(os.devnull, 'w')
@@ -155,6 +156,7 @@ def _worker_init(modname, funcname, seed):
     if hasattr(mod, 'worker_init'):
         mod.worker_init()
     _WORKER_FUNC = getattr(mod, funcname)
+    _WORKER_REPEAT = int(getattr(mod, 'REPEAT', 1)) if funcname == 'run_case' else 1
 
 
 def _worker_call(item):
@@ -163,6 +165,21 @@ def _worker_call(item):
         r = _WORKER_FUNC(case)
         if isinstance(r, Acc):
             r = r.pack()
+        if _WORKER_REPEAT > 1:
+            # history oracle: the same case once more in the same process (module-level caches, class attributes and
+            # whatever else earlier calls leave behind are now warm) must give exactly the same verdicts
+            r2 = _WORKER_FUNC(case)
+            if isinstance(r2, Acc):
+                r2 = r2.pack()
+            s1 = (sorted(r['outcomes'].items()), sorted(f['sig'] for f in r['fails']))
+            s2 = (sorted(r2['outcomes'].items()), sorted(f['sig'] for f in r2['fails']))
+            r['extra']['repeated-evaluations'] = r['extra'].get('repeated-evaluations', 0) + r2['n']
+            if s1 != s2:
+                new = [f for f in r2['fails'] if f['sig'] not in s1[1]]
+                r['fails'] += [dict(f, sig=f['sig'] + ':on-second-run') for f in new[:3]]
+                r['fails'].append({'sig': 'history:second-run-differs', 'case': case,
+                                   'detail': 'running the same case a second time in the same process changes the verdicts: first %s, second %s' % (s1, s2)})
+                r['outcomes']['failed-oracle'] = r['outcomes'].get('failed-oracle', 0) + 1
         return idx, r
     except MachineryError:
         return idx, {'n': 1, 'nontrivial': 0, 'outcomes': {'MACHINERY_ERROR': 1}, 'samples': [], 'extra': {},
@@ -192,7 +209,7 @@ def pmap(modname, funcname, cases, jobs, seed, chunksize=1):
 
 
 def _worker_init_local(modname, funcname, seed):
-    global _WORKER_FUNC
+    global _WORKER_FUNC, _WORKER_REPEAT
     setup_env()
     os.environ['VERIF_SEED'] = str(seed)
     import importlib
@@ -200,6 +217,7 @@ def _worker_init_local(modname, funcname, seed):
     if hasattr(mod, 'worker_init'):
         mod.worker_init()
     _WORKER_FUNC = getattr(mod, funcname)
+    _WORKER_REPEAT = int(getattr(mod, 'REPEAT', 1)) if funcname == 'run_case' else 1
 
 
 # ----------------------------------------------------------------------------- explicit-state search
